@@ -4,7 +4,7 @@ import os
 import random
 import subprocess
 
-from . import codeclib, env
+from . import codeclib, env, facts
 from .check import Report, lean_part, write_replay
 from .obligations import OBLIGATIONS, TRUSTED_BASE
 
@@ -67,6 +67,9 @@ def run_codec_check(prop, codec, tier, seed, replay=None):
         rep.violation(p, "the verification harness does not build against the current tree", no_input=True)
         return rep.finish()
     lean_part(rep, prop)
+    fact_thms = {"C16": ["FactsCodec.gob_roundtrip", "FactsCodec.nothing_unrecognised"],
+                 "C17": ["FactsCodec.json_roundtrip", "FactsCodec.json_total", "FactsCodec.nothing_unrecognised"]}[prop]
+    facts_ok, facts_msg = facts.facts_part(rep, prop, "Sessions.FactsCodec", fact_thms)
     r = random.Random("%d/%s" % (seed, prop))
     viol = []
     if replay:
@@ -159,4 +162,11 @@ def run_codec_check(prop, codec, tier, seed, replay=None):
         n += 1
         p = write_replay(prop, n, [prop + " violated: " + what[:300]], "\n".join(ls) + "\n")
         rep.violation(p, what[:300])
+    if not facts_ok:
+        if viol:
+            pass  # the failing inputs above are the replay
+        else:
+            p = write_replay(prop, 20, ["the theorems about the codec programs regenerated from the source no longer check",
+                                        "no round trip, golden record or malformed input exhibited a failure"], facts_msg + "\n", ext="txt")
+            rep.violation(p, facts_msg.split("\n")[0][:300], no_input=True)
     return rep.finish()
